@@ -1,16 +1,9 @@
 // FixedArray parents (see drv_views.cpp): FixedArray.h has its own operator(), operator[], subset, T, permute,
 // diag_vector, submatrix_on_diagonal; every result is an Array<r,int> and continues as an ordinary view
 #include "drv_views.h"
-template <class FA> static VBase* make_one(FA*& keep) {
-  keep = new FA;
-  int* p = keep->data();
-  set_base(p);
-  g_vol = 1;
-  for (int k = 0; k < ArT<FA>::rank; ++k) g_vol *= keep->dimension(k);
-  for (long c = 0; c < g_vol; ++c) p[c] = (int)c;
-  return new VF<FA>(keep);
-}
-VBase* make_fixed(const std::vector<int>& d, Fix1*& f1, Fix2*& f2, Fix2s*& f2s, Fix3*& f3) {
+template <class FA> static VBase* make_one(FA*& keep) { return make_fixed_one(keep); }
+VBase* make_fixed(const std::vector<int>& d, Fix1*& f1, Fix2*& f2, Fix2s*& f2s, Fix3*& f3, Fix4*& f4) {
+  if (d.size() == 4 && d[0] == 2 && d[1] == 3 && d[2] == 4 && d[3] == 5) return make_fixed4(f4);
   if (d.size() == 1 && d[0] == 4) return make_one(f1);
   if (d.size() == 2 && d[0] == 3 && d[1] == 4) return make_one(f2);
   if (d.size() == 2 && d[0] == 3 && d[1] == 3) return make_one(f2s);
